@@ -303,3 +303,5 @@ def run(cx, out):
         check_hooks(out, facts)
         check_marker_bounds(out, facts)
         check_btree(out, facts)
+    from . import positive
+    positive.check(cx, out, 'C12')
